@@ -168,6 +168,12 @@ func (p *Program) background(d *Decls) []*T {
 		s := Sym("s!ax", SStr)
 		out = append(out, Forall([]*T{s}, pattern(App("hasPrefix", SBool, s, s), App("hasPrefix", SBool, s, s))))
 	}
+	if d.Has("sconcat") && (d.Has("cutPrefix") || d.Has("hasPrefix")) {
+		// a + b starts with a, and cutting a off leaves b
+		a, b := Sym("a!ax", SStr), Sym("b!ax", SStr)
+		c := App("sconcat", SStr, a, b)
+		out = append(out, Forall([]*T{a, b}, pattern(And(App("hasPrefix", SBool, c, a), Eq(App("cutPrefix", SStr, c, a), b)), c)))
+	}
 	if d.Has("canon") && d.Has("lower") {
 		// canonical form is case-insensitive: canon(x) = canon(y) whenever lower(x) = lower(y); lower(canon(x)) = lower(x)
 		s := Sym("s!ax", SStr)
